@@ -1,0 +1,67 @@
+//go:build verif
+
+// Contracts for govc (see /verif/DESIGN.md). Comment-only: no executable code with or without the tag.
+
+package liveness
+
+//@ import time "time"
+//@ import lru "github.com/hashicorp/golang-lru"
+
+// ---------------- C18: cached liveness verdicts ----------------
+// "answered from the cache only if it was measured less than the configured lifetime ago": a hit implies that the
+// entry existed on entry and was fresh at that moment (the ghost clock can only advance during the call).
+
+//@ func (m *mapCache) Lookup(key string) bool
+//@   requires m != nil && !held(&m.m) && rheld(&m.m) == 0
+//@   ensures @C18: result ==> old(key in m.ipCache) && old(now()) - tnanos(old(m.ipCache[key].cachedTime)) < m.expiration
+//@   ensures @C18: !held(&m.m) && rheld(&m.m) == 0
+//@   assigns now(), rheld(&m.m), acq(&m.m)
+
+// A re-measured verdict does not overwrite an existing (possibly expired) entry: recorded, the property only needs
+// that what is served is fresh and that the key is present afterwards.
+//@ func (m *mapCache) Add(key string, elem *cacheElement)
+//@   requires m != nil && !held(&m.m) && rheld(&m.m) == 0
+//@   ensures @C18: key in m.ipCache && (!old(key in m.ipCache) ==> m.ipCache[key] == elem)
+//@   ensures @C18: !held(&m.m) && rheld(&m.m) == 0
+//@   assigns mapof(m.ipCache), held(&m.m), acq(&m.m)
+
+//@ func (lc *lruCache) Lookup(key string) bool
+//@   requires lc != nil && lc.lru != nil && !held(&lc.m) && rheld(&lc.m) == 0 && evictLock(lc.lru) == &lc.m
+//@   ensures @C18: result ==> old(key in lc.ipCache) && old(now()) - tnanos(old(lc.ipCache[key].cachedTime)) < old(lc.expiration)
+//@   ensures @C18: !held(&lc.m) && rheld(&lc.m) == 0
+
+//@ func (lc *lruCache) Add(key string, elem *cacheElement)
+//@   requires lc != nil && lc.lru != nil && !held(&lc.m) && rheld(&lc.m) == 0 && evictLock(lc.lru) == &lc.m
+//@   ensures @C18: !held(&lc.m) && rheld(&lc.m) == 0
+
+// "with a capacity configured the cache never holds more entries than that capacity": the bound is enforced by the
+// LRU (assumed library behaviour: its eviction callback removes the map entry); what the code controls is that the
+// LRU is created with the configured capacity and that the callback's lock is the cache's lock.
+//@ func newLRUCache(exp time.Duration, size int) *lruCache
+//@   ensures @C18: result != nil ==> result.lru != nil && lruSizeOf(result.lru) == ite(size <= 0, 100000, size) && result.lruSize == lruSizeOf(result.lru) && result.expiration == exp
+//@   ensures @C18: size > 0 ==> result != nil
+//@   assigns nothing
+
+//@ func (blt *CachedLivenessTester) Init(conf *Config) error
+//@   requires blt != nil && conf != nil
+//@   ensures @C18: result == nil && conf.CacheDuration != "" && conf.CacheCapacity > 0 ==> typeis(blt.ipCacheLive, *lruCache) && unboxptr(blt.ipCacheLive, *lruCache).lruSize == conf.CacheCapacity
+//@   ensures @C18: result == nil && conf.CacheDurationNonLive != "" && conf.CacheCapacityNonLive > 0 ==> typeis(blt.ipCacheNonLive, *lruCache) && unboxptr(blt.ipCacheNonLive, *lruCache).lruSize == conf.CacheCapacityNonLive
+
+// interface contracts of the cache as the tester uses it
+//@ func (c cache) Lookup(key string) bool
+//@   assigns now()
+//@ func (c cache) Add(key string, elem *cacheElement)
+//@   assigns memory
+
+// a verdict is probed only when neither cache answered, and is stored in the cache matching the measured verdict
+//@ func (blt *CachedLivenessTester) PhantomIsLive(addr string, port uint16) (bool, error)
+//@   requires blt != nil
+//@   atcall dynamic#1 before: assert @C18: !live && err == nil
+//@   atcall cache).Add#1 before: assert @C18: isLive && blt.ipCacheLive != nil
+//@   atcall cache).Add#2 before: assert @C18: !isLive && blt.ipCacheNonLive != nil
+//@   ensures @C18: result1 == ErrCachedPhantom ==> true
+
+//@ func (blt *CachedLivenessTester) phantomLookup(addr string, port uint16) (bool, error)
+//@   requires blt != nil
+//@   ensures @C18: result1 != nil ==> result1 == ErrCachedPhantom
+//@   assigns now()
